@@ -84,6 +84,14 @@ def ctor_facts(program):
     """__init__: which attributes receive which split; the claim flag expression; the removal loops"""
     fn = program.fn('decoder', f"{CLS}.__init__")
     ex = sym.SymExec(fn)
+    # single-assignment locals of the constructor are substituted (e.g. a lower-cased copy of the claim id)
+    local_vals = {}
+    for n in ast.walk(fn):
+        if isinstance(n, ast.Assign) and len(n.targets) == 1 and isinstance(n.targets[0], ast.Name):
+            local_vals.setdefault(n.targets[0].id, []).append(n.value)
+    for name, vals in local_vals.items():
+        if len(vals) == 1:
+            ex.state.env[name] = sym.SymExec(fn).expr(vals[0])
     assigns = {}      # (attrA, attrB) <- param
     flag_expr = None
     flag_attr = None
